@@ -78,12 +78,18 @@ def compare(label, fid, A, B, order, bound, t0):
 
 
 def hierarchy_graphs(tier):
-    gs = []
-    G = nx.Graph(); G.add_edges_from([(0, 1), (1, 2), (2, 3), (1, 3), (3, 4), (4, 5), (5, 0), (2, 5)]); gs.append(('degrees 2,3,3,3,2,3', G))
-    G = nx.Graph(); G.add_edges_from([(0, 1), (1, 2), (2, 3), (3, 0), (0, 0), (2, 4)]); gs.append(('a self-loop (degrees 4,2,3,2,1)', G))
+    """a generator: the last graph is the FIRST graph object rewired in place (same numbers of nodes and edges, another degree
+    sequence) after the models have already been run on it - results must depend on the graph's content, not on its identity"""
+    G = nx.Graph(); G.add_edges_from([(0, 1), (1, 2), (2, 3), (1, 3), (3, 4), (4, 5), (5, 0), (2, 5)])
+    first = G
+    yield ('degrees 2,3,3,3,2,3', G)
+    G = nx.Graph(); G.add_edges_from([(0, 1), (1, 2), (2, 3), (3, 0), (0, 0), (2, 4)])
+    yield ('a self-loop (degrees 4,2,3,2,1)', G)
     if tier != 'quick':
-        G = nx.Graph(); G.add_edges_from([(0, 1), (0, 2), (0, 3), (1, 2), (3, 4), (4, 5)]); gs.append(('degrees 3,2,2,2,2,1', G))
-    return gs
+        G = nx.Graph(); G.add_edges_from([(0, 1), (0, 2), (0, 3), (1, 2), (3, 4), (4, 5)])
+        yield ('degrees 3,2,2,2,2,1', G)
+    first.remove_edge(4, 5); first.remove_edge(2, 5); first.add_edge(1, 4); first.add_edge(1, 5)
+    yield ('the first graph rewired in place (degrees 2,5,2,3,3,1)', first)
 
 
 def regular_graphs(tier):
@@ -155,7 +161,7 @@ def c07_obligations(tier='quick', order=None):
     t0 = time.time()
     try:
         import EoN
-        G = hierarchy_graphs('quick')[0][1]
+        G = next(iter(hierarchy_graphs('quick')))[1]
         Pk = EoN.get_Pk(G)
         Pk = {k: sp.nsimplify(v, rational=True) for k, v in Pk.items()}
         kave = sum(k * p for k, p in Pk.items())
@@ -178,7 +184,7 @@ def c08_obligations(tier='quick'):
     import EoN
     out = []
     tau, gamma, rho = Hn.sym('tau', positive=True), Hn.sym('gamma', positive=True), Hn.sym('rho', positive=True)
-    G = hierarchy_graphs('quick')[0][1]
+    G = next(iter(hierarchy_graphs('quick')))[1]
     Greg = nx.cycle_graph(5)
     ode_wrappers = [n for n in dir(EoN) if n.endswith('_from_graph') and n.startswith(('SIS_', 'SIR_', 'EBCM_from', 'EBCM_pref_mix_from'))]
     order = 2
